@@ -34,6 +34,11 @@ CLAIMED = {
         text="C07_refines_fifo: for every chunk list, every segmentation/timeout schedule delivering the ciphertext and every sequence of caller buffer sizes, every Read result is data or timeout (never EOF / decrypt error) and delivered ++ buffered ++ undecrypted = sent (no loss, duplication, reordering); C07_progress: a complete buffered frame is served without consuming a socket event. Proved for any AEAD with open∘seal=id and for the Gallina ChaCha20-Poly1305. The extracted model and the real hap.Connection (session installed through the public context API) run on the same schedules, ciphertext from an x/crypto reference framer.",
         design="5/C07",
         note="The socket delivers bytes in order; schedules are explicit; net/http's buffering above Connection.Read is outside. Fixed defect 85a235f (lost read-ahead, spurious EOF, k*1024 stall). No axioms."),
+    "C08": dict(
+        technique="Coq invariant proof over all interleavings (schedules of Enter/Step events) of the locked write path: counters on the socket are 0,1,2,... in order and each completed write's frames are contiguous and intact; refuted for the unlocked variant; gated-socket enumeration of release orders against the real Connection.Write",
+        text="C08_no_counter_reuse_in_order and C08_payloads_intact_contiguous hold for every schedule, number of writers and payloads (fewer than 2^64 events). The real code is exercised with 2..4 concurrent writers over a scripted net.Conn that holds socket writes; every release-order preference is enumerated for N<=3; the captured stream is decrypted by an x/crypto reference framer. The observable compared with the model is the multiset of intact payloads (mutex acquisition order is nondeterministic).",
+        design="5/C08",
+        note="Partial: the Go memory model below the granularity of the micro-steps (torn counter reads) is not represented; sync.Mutex semantics assumed; the race detector is not part of the registered check. No axioms."),
 }
 PENDING_REASON = "not yet claimed: model/theorems for this property are still being built in this development (see DESIGN.md section 10 for the order of work)"
 
